@@ -341,10 +341,10 @@ def check_weed_e2e(facts, chk, rule, tier):
     bad = []
     n = 0
     sample_sets = [
-        [('s0', ['ACCAGTTGACCAT', 'GGTACCA']), ('s1', ['ACCAGATGACC', 'TGGTACC', 'ACCAGCTGA'])],      # s1 carries an ambiguous middle base (two copies differing at one site)
+        [('s0', ['ACCAGTTGACCAT', 'GGTACCA', 'AAAAAAAC']), ('s1', ['ACCAGATGACC', 'TGGTACC', 'ACCAGCTGA', 'CAAAAAA'])],      # s1 carries an ambiguous middle base (two copies differing at one site); both hold the all-A split k-mer (encoded 0)
         [('a', ['AACCGGTTAACCA']), ('b', ['AACCGTTTAACCA', 'AACCGATTAACCA']), ('c', ['TTGGC'])],
     ]
-    weeds = [['CAGTTGAC'], ['GTCAACTG'], ['ACCNGTTGAC', 'GGGGGGG'], ['TTTTTTTT'], ['GTTGACC', 'ACG', 'NNANN', 'GGTACCA', 'AACCGG'], ['ACCAGTTGACCAT', 'GGTACCA', 'ACCAGATGACC', 'AACCGGTTAACCA', 'AACCGTTTAACCA']]
+    weeds = [['AAAAAAA', 'CAGTTGAC'], ['CAGTTGAC'], ['GTCAACTG'], ['ACCNGTTGAC', 'GGGGGGG'], ['TTTTTTTT'], ['GTTGACC', 'ACG', 'NNANN', 'GGTACCA', 'AACCGG'], ['ACCAGTTGACCAT', 'GGTACCA', 'ACCAGATGACC', 'AACCGGTTAACCA', 'AACCGTTTAACCA']]
     for samples in sample_sets:
         for rc in (1, 0):
             for weed in weeds:
